@@ -1,5 +1,6 @@
 import PyGam.Proofs.Solve
 import PyGam.Proofs.NormalEq
+import PyGam.Proofs.Stationary
 import Mathlib.Algebra.Order.BigOperators.Ring.Finset
 /-!
 # C01 — fit returns the penalised (quasi-)likelihood optimum of the specified model
@@ -156,6 +157,46 @@ theorem expectile_fixed_point (τ levels w y lp : α) :
   simp [cfg, workWeight2, pseudoDatum, asymWeight, linkGrad, varFn]
 
 end fixedpoint
+
+/-! ### 5. the score residual is the gradient of the penalised deviance (calculus, over ℝ) -/
+section gradient
+open Stationary
+
+/-- along every coordinate direction the penalised deviance `Σ w dev(y, g⁻¹(Bβ)) + βᵀAβ` has derivative
+`−2 ×` the `j`-th score residual (chain rule through C06 `dev_hasDerivAt` and the inverse link, C07) -/
+theorem penalised_deviance_gradient (fam : Family) (k : LinkKind) (L : ℝ) (hL : 0 < L) (n m : ℕ)
+    (B A : ℕ → ℕ → ℝ) (hA : ∀ i l, A i l = A l i) (y w β : ℕ → ℝ) (j : ℕ) (hj : j < m)
+    (hdom : ∀ r, r < n → etaR m B β r ∈ linkRange k L ∧ validDom fam L (y r) (muR k L m B β r)) :
+    HasDerivAt (fun t => penDev fam k L n m B A y w (bump β j t)) (-2 * scoreJ fam k L n m B A y w β j) 0 :=
+  penDev_hasDerivAt fam k L hL n m B A hA y w β j hj hdom
+
+/-- **stationarity**: if the score residual vanishes (equivalently, by `fixed_point_iff_score`, if `β` is a fixed
+point of the PIRLS step) then every partial derivative of the penalised deviance vanishes at `β` -/
+theorem stationary_of_score_zero (fam : Family) (k : LinkKind) (L : ℝ) (hL : 0 < L) (n m : ℕ)
+    (B A : ℕ → ℕ → ℝ) (hA : ∀ i l, A i l = A l i) (y w β : ℕ → ℝ)
+    (hdom : ∀ r, r < n → etaR m B β r ∈ linkRange k L ∧ validDom fam L (y r) (muR k L m B β r))
+    (hscore : ∀ j, j < m → scoreJ fam k L n m B A y w β j = 0) (j : ℕ) (hj : j < m) :
+    HasDerivAt (fun t => penDev fam k L n m B A y w (bump β j t)) 0 0 := by
+  have h := penalised_deviance_gradient fam k L hL n m B A hA y w β j hj hdom
+  rw [hscore j hj, mul_zero] at h; exact h
+
+/-- the score residual of the executable model (`PyGam.scoreResidual` on `stepData`, all rows kept, no
+expectile weights) is `scoreJ` -/
+theorem model_score_eq (fam : Family) (k : LinkKind) (L : ℝ) (n m : ℕ) (B A : ℕ → ℕ → ℝ) (y w β : ℕ → ℝ) (j : ℕ)
+    (hg : ∀ r, r < n → linkGrad k L (muR k L m B β r) ≠ 0) (hV : ∀ r, r < n → varFn fam L (muR k L m B β r) ≠ 0) :
+    scoreResidual n m B A (stepData ⟨fam, k, L, none⟩ m B y w (fun _ => true) β) β j
+      = scoreJ fam k L n m B A y w β j := by
+  simp only [scoreResidual, scoreJ, stepData, sumTo_eq, if_true]
+  congr 1
+  apply sum_congr rfl; intro r hr
+  have hr' := mem_range.mp hr
+  have hlp : linearPredictor m B β r = etaR m B β r := by simp [linearPredictor, etaR, sumTo_eq]
+  have := score_residual_is_gradient (α := ℝ) ⟨fam, k, L, none⟩ (w r) (y r) (etaR m B β r)
+    (by simpa [muR] using hg r hr') (by simpa [muR] using hV r hr')
+  simp only [asymWeight, mul_one] at this
+  rw [hlp, mul_assoc, this]; simp [muR]
+
+end gradient
 
 /-! ### non-vacuity: a 1 × 1 instance of the contracts (k = n = m = 1, WB = 3, A = 16, d = 5) -/
 example : ∃ F : Solve.Factor ℚ 1 1 1, F.WB = !![3] ∧ F.A = !![16] :=
